@@ -629,7 +629,7 @@ def kernel_chunk(job):
                                            (payload, doc_show(d), w, real))
                     agg["violations"].append({"key": panic_key(*payload), "layer": "kernel", "what": "render_doc_with_line_length panics: %s (%s); natively: %s" %
                                               (payload[0], payload[1], real[1]), "doc": doc_to_wire(d), "show": doc_show(d), "width": w,
-                                              "cmd": "render %d %s" % (w, doc_to_wire(d))})
+                                              "cmd": "render %d %s" % (w, doc_to_wire(d)), "eval": "panic"})
                     agg["witness"]["panic-path"] = True
                     continue
                 if real != ("ok", payload):
@@ -928,7 +928,7 @@ def corpus_item(job):
                     raise Inconclusive("the idempotence counterexample of %s at W = %d does not reproduce natively: %r then %r" % (cid, w3, o1, o2))
                 viol("idempotence/" + bid, "%s at W = %d: formatting the output again changes it: %r -> %r" % (cid, w3, out, payload3), w3,
                      "fmt %d %s" % (w3, hx(text)), eval="idempotence")
-            if len(sample) < 4:
+            if len(sample) < 2:
                 sample.append({"output": out.decode("utf-8", "replace"), "widths": width_range(cond), "paths": len(conds)})
             if w >= 1 << 31:
                 res["witness"]["width>=2^31"] = True
